@@ -276,6 +276,12 @@ void add_check(const std::string &name, int base_cases, int max_size,
     md.id = name;
     md.description = name;
     std::string lastfail_text, lastfail_why;
+    // shrinking budget: once a failure is known, candidates are re-run for at most this long; afterwards every
+    // candidate counts as passing, which ends the shrink at the smallest failing case found so far. The clock
+    // never influences the verdict, only how small the replay file gets (failing cases with ceilings are slow).
+    const char *sb_env = getenv("VERIF_SHRINK_BUDGET_S");
+    const double shrink_budget_s = sb_env ? atof(sb_env) : 90.0;
+    std::chrono::steady_clock::time_point first_fail_at;
     rc::Gen<Case> g = gen();
     auto result = rc::detail::checkTestable(
         [&]() {
@@ -289,10 +295,12 @@ void add_check(const std::string &name, int base_cases, int max_size,
             if (cs->samples.size() < 3) cs->samples.push_back(text.substr(0, 1500));
           } else {
             st().cs = nullptr;
+            if (std::chrono::duration<double>(std::chrono::steady_clock::now() - first_fail_at).count() > shrink_budget_s) { st().cs = cs; return; }
           }
           Verdict v = run(c);
           st().cs = cs;
           if (!v.ok) {
+            if (lastfail_text.empty()) first_fail_at = std::chrono::steady_clock::now();
             lastfail_text = text;
             lastfail_why = v.why;
             RC_FAIL(v.why);
